@@ -38,6 +38,8 @@ struct Th {
   handle: Option<std::thread::Thread>,
   prio: i64,
   spin_seen: u64,
+  /// consecutive spin iterations during which nobody else made progress
+  spin_idle: u32,
   panicked: Option<String>,
 }
 
@@ -103,7 +105,7 @@ impl Ctl {
     let mut rng = StdRng::seed_from_u64(seed);
     let mut th = Vec::new();
     for i in 0..n + spares {
-      th.push(Th { st: if i < n { TS::New } else { TS::Spare }, token: false, handle: None, prio: rng.random_range(1000..2000), spin_seen: 0, panicked: None });
+      th.push(Th { st: if i < n { TS::New } else { TS::Spare }, token: false, handle: None, prio: rng.random_range(1000..2000), spin_seen: 0, spin_idle: 0, panicked: None });
     }
     let mut cps = vec![];
     if let Strategy::Pct { d, k } = &strat {
@@ -233,8 +235,11 @@ impl Ctl {
     if c.is_empty() {
       return None;
     }
-    // spinners that saw no progress since they started spinning go last
-    let fresh: Vec<usize> = c.iter().copied().filter(|&i| !(s.th[i].st == TS::Spin && s.th[i].spin_seen == s.progress)).collect();
+    // A thread that has been spinning for a long time without anybody else making progress is
+    // waiting for somebody (an unbounded spin-wait): it goes last.  Short, bounded pre-park spin
+    // loops (a few hundred iterations) are ordinary steps, so that "the waiter spins, registers
+    // and parks while the other thread is delayed" stays reachable.
+    let fresh: Vec<usize> = c.iter().copied().filter(|&i| !(s.th[i].st == TS::Spin && s.th[i].spin_idle > 600)).collect();
     if !fresh.is_empty() {
       c = fresh;
     }
@@ -261,8 +266,8 @@ impl Ctl {
             s.th[m].prio = lo - 1;
           }
         }
-        // timed parks and spinners rank below runnable threads of equal standing
-        *c.iter().max_by_key(|&&i| (s.th[i].st != TS::Spin, s.th[i].prio)).unwrap()
+        // strictly by priority (long idle spinners were already filtered out above)
+        *c.iter().max_by_key(|&&i| s.th[i].prio).unwrap()
       }
     };
     s.decisions.push(pick as u8);
@@ -311,8 +316,14 @@ impl Ctl {
     s.steps += 1;
     s.last_step_at = Instant::now();
     if as_state == TS::Spin {
+      if s.th[tid].spin_seen == s.progress {
+        s.th[tid].spin_idle += 1;
+      } else {
+        s.th[tid].spin_idle = 0;
+      }
       s.th[tid].spin_seen = s.progress;
     } else {
+      s.th[tid].spin_idle = 0;
       s.progress += 1;
     }
     s.th[tid].st = as_state;
